@@ -2,6 +2,7 @@
 //
 //	harness gen-tables <dir>            read finite tables out of the implementation -> <dir>/Tables.v, Lev.v
 //	harness gen-flags  <file>           translate formats/sam/flag.go -> FlagGen.v
+//	harness gen-src <repo> <out.v>      translate selected pure functions and constants -> SrcGen.v
 //	harness run <prop> <tier> <seed> <outdir>   generate cases, run implementation + direct oracle
 //	harness replay <kind> <val>         run one recorded case on the implementation
 //
@@ -39,6 +40,11 @@ func main() {
 			usage()
 		}
 		genFlags(os.Args[2], os.Args[3])
+	case "gen-src":
+		if len(os.Args) != 4 {
+			usage()
+		}
+		genSrc(os.Args[2], os.Args[3])
 	case "run":
 		if len(os.Args) != 6 {
 			usage()
@@ -71,7 +77,7 @@ func main() {
 			os.Exit(2)
 		}
 		out := runImpl(k, in)
-		fmt.Println("impl", out.String())
+		fmt.Println("impl", project(k, out).String())
 		msg := ""
 		if k.Oracle != nil {
 			msg = k.Oracle(in, out)
@@ -107,6 +113,6 @@ func main() {
 }
 
 func usage() {
-	fmt.Fprintln(os.Stderr, "usage: harness gen-tables <dir> | gen-flags <flag.go> <out.v> | run <prop> <tier> <seed> <outdir> | replay <kind> <val> | kinds")
+	fmt.Fprintln(os.Stderr, "usage: harness gen-tables <dir> | gen-flags <flag.go> <out.v> | gen-src <repo> <out.v> | run <prop> <tier> <seed> <outdir> | replay <kind> <val> | kinds")
 	os.Exit(2)
 }
